@@ -189,6 +189,25 @@ def scenario_factory_call(pool, cs, nmax, max_tokens):
         v_assert(v_queue_has_no_none(pool._replace_queue), "invariant-no-stop-token-left-in-replace-queue")
 
 
+def scenario_factory_lifecycle(pool, cs, nmax, w0, w1, quota):
+    """FactoryFunctorPool, quota per worker, one spare: lifecycle of the initial AND of the replaced worker."""
+    n = v_param("n", 0, nmax)
+    out = []
+    with pool:
+        for x in pool.imap(v_input(n), cs):
+            out.append(x)
+    v_assert(v_out_is_identity(out, n), "factory-call-results-equal-map")
+    v_assert(v_thread_done(w0), "worker-left-running-after-pool-exit")
+    v_assert(v_mon_get(w0, "begin_calls") == 1, "begin-not-exactly-once")
+    v_assert(v_mon_get(w0, "end_calls") == 1, "end-not-exactly-once")
+    v_assert(v_mon_get(w0, "items") <= quota * cs, "worker-exceeded-its-chunk-quota")
+    v_assert(v_mon_get(w1, "items") <= quota * cs, "worker-exceeded-its-chunk-quota")
+    if v_mon_get(w1, "begin_calls") > 0:
+        v_assert(v_thread_done(w1), "replaced-worker-left-running-after-pool-exit")
+        v_assert(v_mon_get(w1, "begin_calls") == 1, "begin-not-exactly-once")
+        v_assert(v_mon_get(w1, "end_calls") == 1, "end-not-exactly-once")
+
+
 def scenario_fmap(fm, cs, nmax, calls):
     n = v_param("n", 0, nmax)
     out = []
@@ -275,10 +294,10 @@ def make(cfg, ctx, mode, ctrl=None, restore=None):
     if kind == "factory":
         quota = cfg.get("quota", 1)
         spares = cfg.get("spares", 1)
-        wcls = IdWorker
+        wcls = LifeWorker if cfg.get("lifecycle") else IdWorker
         if mode == "replay":
             from vf.bmc import replay as rp
-            wcls = rp.gate_process_class(ctrl, IdWorker)
+            wcls = rp.gate_process_class(ctrl, wcls)
             saved = opp.threading
             opp.threading = rp.FakeThreading(ctx)
             restore.append(lambda: setattr(opp, "threading", saved))
@@ -301,6 +320,9 @@ def make(cfg, ctx, mode, ctrl=None, restore=None):
             pool.procs = rp.GatedList(ctrl, pool.procs, "list0")
         info["list_caps"].update({("scenario_factory_call", "out"): max(nmax, 1), ("chunking", "ch"): cs,
                                   ("_get_results", "chunks"): max(nchunks + 1 + mt, 1), ("_get_results", "indexes"): max(nchunks + 1 + mt, 1)})
+        if cfg.get("lifecycle"):
+            info["list_caps"][("scenario_factory_lifecycle", "out")] = max(nmax, 1)
+            return {"scenario": scenario_factory_lifecycle, "args": (pool, CInt(cs), CInt(nmax), fac.all[0], fac.all[1], CInt(quota)), "info": info}
         return {"scenario": scenario_factory_call, "args": (pool, CInt(cs), CInt(nmax), CInt(mt)), "info": info}
     if kind == "fmap":
         saved_q = pools.Queue
